@@ -23,6 +23,8 @@
  *   ARGFILL <d> <byte> <n> / ARGDUMP <d> <n>   (C09) fill / hex-dump the per-frame argument buffer of
  *                      frame mtd.idx+d (n bytes, may span the following frames' buffers)
  *   ADDR               (C09) -> "ADDR <address of f0> <the @BAD address>"
+ *   XRF <t> <rax> <rdx> <x>  (C09) like XR, xmm0 (low 64 bits) := x right before mcount_exit
+ *   SPECS <k>          (C09) the merged argument spec list libmcount holds for f<k>
  *   FRAMESET <d> <i> <w>  (C09) word i of the fake stack frame of call depth d := w
  *   SADDR <i>          (C09) -> "SADDR <address of string/object i>"
  *   OBJ <i> <word>...  (C09) define object i as these 8-byte words (numbers, @S<j>, @BAD)
@@ -61,6 +63,8 @@
 #include "libmcount/mcount.h"
 #include "libmcount/internal.h"
 #include "mcount-arch.h"
+#include "utils/filter.h"
+#include "utils/argspec.h"
 
 /* ------------------------------------------------------------------ interposed effects */
 static volatile uint64_t fake_now = 1000;
@@ -385,10 +389,12 @@ static void do_op(struct drv *dv, char *line)
 		if (autostate)
 			print_state();
 	}
-	else if (!strcmp(op, "X") || !strcmp(op, "XR")) {
+	else if (!strcmp(op, "X") || !strcmp(op, "XR") || !strcmp(op, "XRF")) {
 		unsigned long long t;
 		long rv[4] = { 0, 0, 0, 0 };
 		unsigned long ra;
+		unsigned long xmm0v = 0; /* C09: XRF <t> <rax> <rdx> <xmm0 low 64 bits> */
+		int have_xmm0 = 0;
 		char *save, *tok;
 		tok = strtok_r(line, " \n", &save);
 		tok = strtok_r(NULL, " \n", &save);
@@ -397,6 +403,10 @@ static void do_op(struct drv *dv, char *line)
 			rv[0] = parse_word(tok);
 		if ((tok = strtok_r(NULL, " \n", &save)))
 			rv[1] = parse_word(tok);
+		if (op[2] == 'F' && (tok = strtok_r(NULL, " \n", &save))) {
+			xmm0v = parse_word(tok);
+			have_xmm0 = 1;
+		}
 		fake_now = t;
 		if (dv->csp <= 0 || !dv->hooked[--dv->csp]) {
 			/* the entry was not hooked: the real stub never calls mcount_exit for it */
@@ -406,6 +416,8 @@ static void do_op(struct drv *dv, char *line)
 			return;
 		}
 		errno = 55;
+		if (have_xmm0)
+			asm volatile("movq %0, %%xmm0" ::"r"(xmm0v) : "xmm0");
 		ra = mcount_exit(rv);
 		dv->sp--;
 		if ((ra & ~0xffffUL) == 0xdead0000UL)
@@ -496,6 +508,31 @@ static void do_op(struct drv *dv, char *line)
 				printf("%02x", p[i]);
 			printf("\n");
 		}
+	}
+#endif
+#ifndef DISABLE_MCOUNT_FILTER
+	else if (!strcmp(op, "SPECS")) {
+		/* C09: the argument spec list libmcount holds for f<k> after all -A/-R options were merged
+		 * -> "SPECS <trigger flags> <n> | idx fmt size type reg_idx/stack_ofs struct_reg_cnt r0 r1 r2 r3 name | ..." */
+		extern struct uftrace_triggers_info *mcount_triggers;
+		struct uftrace_trigger tr = { 0 };
+		struct uftrace_arg_spec *sp;
+		int k = 0, n = 0, i;
+		sscanf(line, "%*s %d", &k);
+		uftrace_match_filter((unsigned long)funcs[k % NFUNC] + 4, &mcount_triggers->root, &tr);
+		if (tr.pargs)
+			list_for_each_entry(sp, tr.pargs, list)
+				n++;
+		printf("SPECS %u %d", (unsigned)tr.flags, n);
+		if (tr.pargs)
+			list_for_each_entry(sp, tr.pargs, list) {
+				printf(" | %d %d %d %d %d %d", sp->idx, (int)sp->fmt, sp->size, (int)sp->type,
+				       (int)sp->reg_idx, (int)sp->struct_reg_cnt);
+				for (i = 0; i < 4; i++)
+					printf(" %d", i < sp->struct_reg_cnt ? (int)sp->struct_regs[i] : 0);
+				printf(" %s", sp->type_name ? sp->type_name : "-");
+			}
+		printf("\n");
 	}
 #endif
 	else if (!strcmp(op, "FRAMESET")) {
